@@ -3,6 +3,7 @@ import Luqum.Model.ParserInst
 import Luqum.Model.Transform
 import Luqum.Model.Naming
 import Luqum.Model.Check
+import Luqum.Model.Pretty
 
 namespace Luqum.Ops
 open Lean (Json)
@@ -126,6 +127,13 @@ def handle (j : Json) : Except String Json := do
     let zeal ← getNat j "zeal"
     let errs := luceneErrors zeal t
     return Json.mkObj [("errors", Json.arr (errs.map str).toArray), ("ok", Json.bool (luceneCheck zeal t))]
+  | "pretty" =>
+    let t ← getTree (← j.getObjVal? "tree")
+    let cfg : PrettyCfg := { indent := ← getNat j "indent", maxLen := ← getInt j "max_len",
+                             inlineOps := getBoolD j "inline_ops" false }
+    match prettify cfg t with
+    | some s => return Json.mkObj [("ok", str s)]
+    | none => return Json.mkObj [("err", Json.str "AttributeError")]
   | "echo" =>
     let t ← getTree (← j.getObjVal? "tree")
     return Json.mkObj [("tree", treeJ t)]
